@@ -353,73 +353,105 @@ def check_eig_slots(prog, rep):
     `resw` and (for eig/eigh) the eigenvectors into the identity `resv = diag(1, a.legs[0])`, whose
     blocks and columns are enumerated by the sectors of a.legs[0].  Eigenvalue i belongs to column
     i of the eigenvector matrix only if both are addressed through the ROW index of the block
-    (`qindices[0]`) and the slices of a.legs[0]: the column index / second leg enumerate the same
-    sectors in another order when the second leg is stored in the equivalent flipped form."""
+    (column 0 of a._qdata) and the slices of a.legs[0]: the column index / second leg enumerate the
+    same sectors in another order when the second leg is stored in the equivalent flipped form.
+    Row / column index expressions are recognised by data flow (rows of a._qdata, its columns,
+    unpacked or indexed, through single-assignment temporaries)."""
     m = prog.module(NPC)
     n = 0
     for qn in ('_eig_worker', '_eigvals_worker'):
         f = m.func(qn)
-        loop = None
+        tdefs, unpack, loopvars = {}, {}, {}
         for st in ast.walk(f):
-            if isinstance(st, ast.For) and 'a._qdata' in unparse(st.iter):
-                loop = st
-        if loop is None:
-            raise AnalysisError('FACT-eig-slot: block loop of %s not found' % qn)
-        qname = loop.target.elts[0].id if isinstance(loop.target, ast.Tuple) and isinstance(
-            loop.target.elts[0], ast.Name) else None
-        # names bound to the row index of the block
-        row, col = set(), set()
-        for st in ast.walk(loop):
             if isinstance(st, ast.Assign) and len(st.targets) == 1:
                 t, v = st.targets[0], st.value
-                if isinstance(t, ast.Name) and isinstance(v, ast.Subscript) and \
-                        unparse(v.value) == qname and isinstance(v.slice, ast.Constant):
-                    (row if v.slice.value == 0 else col).add(t.id)
-                elif isinstance(t, ast.Tuple) and unparse(v) == qname and len(t.elts) == 2:
-                    if isinstance(t.elts[0], ast.Name):
-                        row.add(t.elts[0].id)
-                    if isinstance(t.elts[1], ast.Name):
-                        col.add(t.elts[1].id)
-        row_txt = set(row) | {'%s[0]' % qname}
-        # single-assignment temporaries (a hoisted leg, a named slice) are looked through
-        tdefs = {}
-        for st in ast.walk(f):
-            if isinstance(st, ast.Assign) and len(st.targets) == 1 and isinstance(
-                    st.targets[0], ast.Name):
-                tdefs.setdefault(st.targets[0].id, []).append(st.value)
+                if isinstance(t, ast.Name):
+                    tdefs.setdefault(t.id, []).append(v)
+                elif isinstance(t, ast.Tuple) and len(t.elts) == 2 and all(
+                        isinstance(e, ast.Name) for e in t.elts):
+                    unpack[t.elts[0].id] = (v, 0)
+                    unpack[t.elts[1].id] = (v, 1)
+            if isinstance(st, ast.For):
+                tg, it = st.target, st.iter
+                pairs_ = []
+                if isinstance(it, ast.Call) and unparse(it.func) == 'zip' and isinstance(
+                        tg, ast.Tuple) and len(tg.elts) == len(it.args):
+                    pairs_ = list(zip(tg.elts, it.args))
+                elif isinstance(it, ast.Call) and unparse(it.func) == 'enumerate' and isinstance(
+                        tg, ast.Tuple) and len(tg.elts) == 2 and it.args:
+                    pairs_ = [(tg.elts[1], it.args[0])]
+                else:
+                    pairs_ = [(tg, it)]
+                for t_, i_ in pairs_:
+                    if isinstance(t_, ast.Name):
+                        loopvars[t_.id] = i_
+
+        def kind(e, depth=0):
+            """'row' / 'col' if `e` is the row / column sector index of the current block"""
+            if depth > 4:
+                return None
+            if isinstance(e, ast.Subscript):
+                base, sl = e.value, e.slice
+                if unparse(base) == 'a._qdata' and isinstance(sl, ast.Tuple) and len(sl.elts) == 2 \
+                        and isinstance(sl.elts[1], ast.Constant):
+                    return 'row' if sl.elts[1].value == 0 else 'col'
+                if isinstance(base, ast.Name) and isinstance(sl, ast.Constant) and \
+                        base.id in loopvars and unparse(loopvars[base.id]) == 'a._qdata':
+                    return 'row' if sl.value == 0 else 'col'
+                return None
+            if isinstance(e, ast.Name):
+                if e.id in loopvars:
+                    it = loopvars[e.id]
+                    u = unparse(it)
+                    if u == 'a._qdata[:, 0]':
+                        return 'row'
+                    if u == 'a._qdata[:, 1]':
+                        return 'col'
+                    return None
+                if e.id in unpack:
+                    v, k = unpack[e.id]
+                    if isinstance(v, ast.Name) and v.id in loopvars and unparse(
+                            loopvars[v.id]) == 'a._qdata':
+                        return 'row' if k == 0 else 'col'
+                    return None
+                if len(tdefs.get(e.id, [])) == 1:
+                    return kind(tdefs[e.id][0], depth + 1)
+            return None
 
         def resolve(e, depth=0):
             if isinstance(e, ast.Name) and len(tdefs.get(e.id, [])) == 1 and depth < 3 and \
-                    e.id not in row and e.id not in col:
+                    kind(e) is None:
                 return resolve(tdefs[e.id][0], depth + 1)
             return e
-        for st in ast.walk(loop):
+        for st in ast.walk(f):
             if not (isinstance(st, ast.Assign) and len(st.targets) == 1 and isinstance(
                     st.targets[0], ast.Subscript)):
                 continue
             t = st.targets[0]
             base = unparse(t.value)
             if base == 'resw':
-                n += 1
                 idx = resolve(t.slice)
-                fn = unparse(resolve(idx.func.value)) + '.get_slice' if isinstance(
-                    idx, ast.Call) and isinstance(idx.func, ast.Attribute) and \
-                    idx.func.attr == 'get_slice' else None
-                ok = fn == 'a.legs[0].get_slice' and len(idx.args) == 1 and (
-                    unparse(idx.args[0]) in row_txt or unparse(resolve(idx.args[0])) in row_txt)
-                rep.instance('FACT-eig-slot', {'function': qn, 'store': unparse(t)[:60], 'ok': ok})
+                if not (isinstance(idx, ast.Call) and isinstance(idx.func, ast.Attribute) and
+                        idx.func.attr == 'get_slice' and len(idx.args) == 1):
+                    continue   # (initialisation etc.)
+                n += 1
+                leg = unparse(resolve(idx.func.value))
+                k = kind(idx.args[0])
+                ok = leg == 'a.legs[0]' and k == 'row'
+                rep.instance('FACT-eig-slot', {'function': qn, 'store': unparse(t)[:60],
+                                               'leg': leg, 'index': k})
                 if not ok:
                     rep.violation('FACT-eig-slot', m, qn, 'eigenvalue-slot:' + unparse(idx)[:40],
                                   '`%s`: the eigenvalues of a block belong to the slice of its ROW '
                                   'sector on a.legs[0] (the leg the eigenvector identity was built '
-                                  'on); the column index / second leg order the sectors '
-                                  'differently for a flipped second leg' % unparse(t)[:60],
-                                  st.lineno)
+                                  'on); here: leg `%s`, index kind %s. The column index / second '
+                                  'leg order the sectors differently for a flipped second leg' %
+                                  (unparse(t)[:60], leg, k), st.lineno)
             elif base == 'resv._data':
                 n += 1
-                ok = unparse(t.slice) in row_txt or unparse(resolve(t.slice)) in row_txt
-                rep.instance('FACT-eig-slot', {'function': qn, 'store': unparse(t)[:60], 'ok': ok})
-                if not ok:
+                k = kind(t.slice)
+                rep.instance('FACT-eig-slot', {'function': qn, 'store': unparse(t)[:60], 'index': k})
+                if k != 'row':
                     rep.violation('FACT-eig-slot', m, qn, 'eigenvector-slot:' + unparse(t.slice)[:40],
                                   '`%s`: the identity resv has one block per sector of a.legs[0] '
                                   'in order; the block of the eigenvectors is the ROW sector' %
